@@ -24,5 +24,9 @@ OutOK == Len(ds) = 0 /\ x > 0 =>
                IN IF pow2 /\ DBits % bits = 0 THEN ToBitwiseLe(x, bits) = Canon(x, r)
                   ELSE IF pow2 THEN ToInexactBitwiseLe(x, bits) = Canon(x, r)
                   ELSE ToRadixDigitsLe(x, r) = Canon(x, r)
-AlgsOK == ParseOK /\ OutOK
+\* the hex / binary formatting loop yields the canonical numeral of the pattern (C12)
+FmtOK == Len(ds) = 0 =>
+            \A bits \in {1, 2, 4} : DBits % bits = 0 =>
+                FmtDigits(x, bits) = (IF x = 0 THEN <<0>> ELSE Reverse(Canon(x, P2(bits))))
+AlgsOK == ParseOK /\ OutOK /\ FmtOK
 =============================================================================
